@@ -64,6 +64,31 @@ func DrawNames(t *rapid.T) Names {
 	return n
 }
 
+// HostileNames draws names with bytes that stress framing, ordering and
+// escaping: NUL, 0xff, CR/LF, invalid UTF-8, and one very long name.
+func HostileNames(t *rapid.T) Names {
+	parts := []string{"\x00", "\xff", "\r\n", "a", "\x00\x00", "\xff\xff", "é", "\xc3", " ", "*"}
+	mk := func(label string) string {
+		for {
+			ps := rapid.SliceOfN(rapid.SampledFrom(parts), 1, 4).Draw(t, label)
+			s := strings.Join(ps, "")
+			if strings.TrimSpace(s) != "" {
+				return s
+			}
+		}
+	}
+	var n Names
+	for i := 0; i < 3; i++ {
+		n.Keys = append(n.Keys, mk("hkey"))
+	}
+	for i := 0; i < 3; i++ {
+		n.IDs = append(n.IDs, mk("hid"))
+	}
+	n.IDs = append(n.IDs, strings.Repeat("L", rapid.IntRange(70000, 200000).Draw(t, "longlen")))
+	n.Fields = []string{"f\x00g", "\xffh", "g"}
+	return n
+}
+
 func pick(t *rapid.T, label string, xs []string) string {
 	return rapid.SampledFrom(xs).Draw(t, label)
 }
